@@ -462,11 +462,33 @@ def translate_invalidate(tree):
     return text, fp(fn)
 
 
+def translate_dunder_iter(tree):
+    """`__iter__`: if self._cache_complete: return iter(self._cache) / elif self._cache is None: return self._iter() / else: return self._iter_cached()"""
+    fn = find_method(tree, "rrulebase", "__iter__")
+    u = ast.unparse
+    b = strip_doc(fn.body)
+    ok = (len(b) == 1 and isinstance(b[0], ast.If) and u(b[0].test) == "self._cache_complete" and [u(x) for x in b[0].body] == ["return iter(self._cache)"]
+          and len(b[0].orelse) == 1 and isinstance(b[0].orelse[0], ast.If) and u(b[0].orelse[0].test) == "self._cache is None"
+          and [u(x) for x in b[0].orelse[0].body] == ["return self._iter()"] and [u(x) for x in b[0].orelse[0].orelse] == ["return self._iter_cached()"])
+    if not ok:
+        raise U(fn, "__iter__")
+    # model lines: 105 = def, 106 if, 107 return iter(cache), 108 elif, 109 return self._iter(), 110 else, 111 return self._iter_cached();
+    # the generator object returned on line 111 starts at the first statement of `_iter_cached` (125); the list iterator is `listIter`
+    nodes = ["{ pc := .l106, op := .ifComplete, next := .l107, alt := .l108 }",
+             "{ pc := .l107, op := .retListIter, next := .listIter }",
+             "{ pc := .l108, op := .ifCacheNone, next := .done, alt := .l111 }",
+             "{ pc := .l111, op := .retIterCached, next := .l125 }"]
+    return nodes, fp(fn)
+
+
 def translate_cache(srcdir):
     tree = ast.parse(open(os.path.join(srcdir, "rrule.py")).read())
     t1, f1 = translate_iter_cached(tree)
     t2, f2 = translate_invalidate(tree)
-    return t1 + "\n" + t2, {"rrulebase._iter_cached": f1, "rrulebase._invalidate_cache": f2}
+    n0, f0 = translate_dunder_iter(tree)
+    t1 = t1.replace("def iterCachedProgram : List CachePy.Node :=\n  [", "def iterCachedProgram : List CachePy.Node :=\n  [" + ",\n   ".join(n0) + ",\n   ", 1)
+    t1 = t1.replace("translated from `rrule.py:rrulebase._iter_cached`", "translated from `rrule.py:rrulebase.__iter__` (the first four nodes) and `rrulebase._iter_cached`")
+    return t1 + "\n" + t2, {"rrulebase.__iter__": f0, "rrulebase._iter_cached": f1, "rrulebase._invalidate_cache": f2}
 
 
 # ------------------------------------------------------------------ (2) rruleset._genitem and rruleset._iter
